@@ -9,7 +9,7 @@ A=$(PYTHONPATH=$W/src timeout 600 /venv/bin/python $SRC/equiv_r.py 2>&1 | tail -
 git apply $SRC/patch_r.diff || { echo "$ID: PATCH DOES NOT APPLY"; exit 3; }
 if git diff --name-only | grep -qv '^src/clikit/'; then echo "$ID: touches files outside src/clikit"; exit 3; fi
 B=$(PYTHONPATH=$W/src timeout 600 /venv/bin/python $SRC/equiv_r.py 2>&1 | tail -1)
-T=$(/venv/bin/python -m pytest -q -p no:cacheprovider 2>&1 | tail -1)
+T=$(PYTHONPATH=$W/src /venv/bin/python -m pytest -q -p no:cacheprovider 2>&1 | tail -1)
 N=$(git diff --shortstat)
 echo "$ID: suite: $T | $N"
 echo "   pristine: $A"; echo "   patched:  $B"
